@@ -161,6 +161,22 @@ def check(ctx):
                detail={"found": got})
 
 
+def check_private_predicate(ctx, rule, enum):
+    """<enum as WithPrivateRange>::is_private(i) is exactly i < -65536 (re-used by C08/C10/C18 for the registry they rely on)"""
+    prog = ctx.prog
+    from lib.prov import resolve_consts
+    f = prog.fn("<%s as %s>::is_private" % (enum, WPR))
+    rt2 = resolve_consts(prog, Prov(f).return_term())
+    try:
+        pts = break_points(consts_in(rt2) | {-65536})
+        table = {x: ev(rt2, {("param", 0): x}) for x in pts}
+        ok = all(table[x] == (x < -65536) for x in pts)
+    except Unknown:
+        ok = False
+    ctx.ob(rule, "is_private:%s" % enum, bool(ok), "%s::is_private(i) is exactly i < -65536 (truth table on the break points)" % enum,
+           where=f.span, detail={"body": show(rt2)})
+
+
 def _classify(ctx, key, private):
     prog = ctx.prog
     f = prog.fn(key)
@@ -168,6 +184,7 @@ def _classify(ctx, key, private):
     outs = outcomes(f, pv)
     seen = {}
     problems = []
+    n_ok = {}
     self_adt = "common::RegisteredLabelWithPrivate" if private else "common::RegisteredLabel"
     narrowed = None
     for o in outs:
@@ -184,6 +201,7 @@ def _classify(ctx, key, private):
         if o["kind"] == "ok" and inner[0] == "aggr" and inner[1] == self_adt:
             v = inner[2]
             payload = inner[3][0][1]
+            n_ok[v] = n_ok.get(v, 0) + 1
             if v == "Assigned":
                 # payload = (from_i64(i) as Some).0, reached when from_i64 returned Some
                 ok = (payload[0] == "field" and payload[1][0] == "variant" and payload[1][2] == "Some"
@@ -219,6 +237,9 @@ def _classify(ctx, key, private):
             seen["type_error"] = True
         else:
             problems.append("unexpected outcome %s %s" % (o["kind"], show(t)[:80]))
+    for v, n in n_ok.items():
+        if n != 1:
+            problems.append("%d different paths produce Ok(%s): the classification is not a single chain" % (n, v))
     want_err = ["UnregisteredIanaNonPrivateValue"] if private else ["UnregisteredIanaValue"]
     ok = (not problems and seen.get("Assigned") and seen.get("Text") and seen.get("type_error")
           and seen.get("errs") == want_err and len(seen.get("propagates", [])) == 1
